@@ -66,11 +66,11 @@ InstallReject(r, g) ==
 
 (* deviating shapes *)
 InstallOverwrite(r, g, root) ==
-    /\ installed[r] /\ g \in Gen /\ Is(r, "overwrite")
+    /\ installed[r] /\ (IF g \in Gen THEN TRUE ELSE Shape[r] = "any") /\ Is(r, "overwrite")
     /\ lc' = [lc EXCEPT ![r] = root] /\ UNCHANGED installed
     /\ res' = "ok" /\ Log("install", r, g)
 InstallNoop(r, g) ==
-    /\ installed[r] /\ g \in Gen /\ Is(r, "noop")
+    /\ installed[r] /\ Is(r, "noop")          \* whatever the data: the check comes before parsing
     /\ UNCHANGED <<installed, lc>>
     /\ res' = "ok" /\ Log("install", r, g)
 (* an error return that nevertheless changed the state (only reachable in trace validation) *)
@@ -88,6 +88,13 @@ SyncReject(r) ==
     /\ ~installed[r] /\ r \in SyncRouters
     /\ UNCHANGED <<installed, lc>>
     /\ res' = "err" /\ Log("sync", r, "")
+
+(* a header batch that contains nothing new or nothing connectable is skipped without an error by several routers
+   (bsc family: unknown parent; ont: height already stored); only offered to trace validation *)
+SyncIgnored(r) ==
+    /\ r \in SyncRouters
+    /\ UNCHANGED <<installed, lc>>
+    /\ res' = "ok" /\ Log("sync", r, "")
 
 (* model-level roots *)
 Syncs == Cardinality({i \in 1..Len(h) : h[i].op = "sync" /\ h[i].res = "ok"})
